@@ -98,19 +98,37 @@ structure Sat.Sound (orig : Cnf) (s : Sat) : Prop where
   learnt : ∀ c ∈ s.log, Entails orig c
   /-- an inconsistency reported at root level means the added clauses are unsatisfiable -/
   dead : s.dead = true → Unsat orig
-  /-- nothing is forgotten: the stored clauses and root-level literals still imply every added clause -/
-  keeps : ∀ α : Asg, α 0 = false → α.cnf (s.cls.map (·.2)) = true →
+  /-- nothing is forgotten: as long as no inconsistency was reported, the stored clauses and
+      root-level literals still imply every added clause -/
+  keeps : s.dead = false → ∀ α : Asg, α 0 = false → α.cnf (s.cls.map (·.2)) = true →
             (∀ l ∈ s.trail, s.level.getD l.var 0 = 0 → α.lit l = true) → α.cnf orig = true
 
 /-! ## the theorems -/
 
 /-- after ANY finite history of precondition-respecting calls the network is sound -/
 theorem C07_all_histories (fuel : Nat) (ops : List SatOp) (r : Run)
-    (h : Run.steps fuel Run.init ops = some r) : r.s.Sound r.orig := by sorry
+    (h : Run.steps fuel Run.init ops = some r) : r.s.Sound r.orig := by
+  have hb : ∀ (r : Run) (op : SatOp) (r' : Run) (b : Bool), r.step fuel op = some (r', b) →
+      Sat.stepL fuel r.s r.orig (c07_dec op) = some (r'.s, r'.orig, b) := by c07_bridge
+  have hI : Sat.InvB r.orig r.s :=
+    Sat.reach_generic fuel Run.s Run.orig (c07_dec) (Run.step fuel) (Run.steps fuel) hb (fun _ => rfl)
+      (fun _ _ _ hs => by simp only [Run.steps, hs]) (fun _ _ _ _ _ hs => by simp only [Run.steps, hs])
+      ops Run.init r Sat.init_invB h
+  exact ⟨(hI.inv 0).ent.clauses, hI.trail_all, hI.values, (hI.inv 0).ent.log, (hI.inv 0).ent.dead,
+    (hI.inv 0).ent.keeps⟩
 
 /-- one more call keeps soundness (the inductive step, usable from any reachable state) -/
 theorem C07_step_sound (fuel : Nat) (ops : List SatOp) (r r' : Run) (op : SatOp) (b : Bool)
-    (h : Run.steps fuel Run.init ops = some r) (hs : r.step fuel op = some (r', b)) : r'.s.Sound r'.orig := by sorry
+    (h : Run.steps fuel Run.init ops = some r) (hs : r.step fuel op = some (r', b)) : r'.s.Sound r'.orig := by
+  have hb : ∀ (r : Run) (op : SatOp) (r' : Run) (b : Bool), r.step fuel op = some (r', b) →
+      Sat.stepL fuel r.s r.orig (c07_dec op) = some (r'.s, r'.orig, b) := by c07_bridge
+  have hI : Sat.InvB r.orig r.s :=
+    Sat.reach_generic fuel Run.s Run.orig (c07_dec) (Run.step fuel) (Run.steps fuel) hb (fun _ => rfl)
+      (fun _ _ _ hs => by simp only [Run.steps, hs]) (fun _ _ _ _ _ hs => by simp only [Run.steps, hs])
+      ops Run.init r Sat.init_invB h
+  have hI' := (Sat.step_spec hI (hb r op r' b hs)).inv
+  exact ⟨(hI'.inv 0).ent.clauses, hI'.trail_all, hI'.values, (hI'.inv 0).ent.log, (hI'.inv 0).ent.dead,
+    (hI'.inv 0).ent.keeps⟩
 
 /-- a negative answer is never given for a satisfiable problem: `new_clause`, `propagate`,
     `assume`, `simplify_db` (and `next` above root level) answer false only when the added
@@ -121,7 +139,15 @@ theorem C07_false_only_if_unsat (fuel : Nat) (ops : List SatOp) (r r' : Run) (op
     match op with
     | .check ls => Unsat (r.orig ++ unitsOf r.s.decisions ++ unitsOf ls)
     | .next => r.s.rootLevel = true ∨ Unsat r'.orig
-    | _ => Unsat r'.orig := by sorry
+    | _ => Unsat r'.orig := by
+  have hb : ∀ (r : Run) (op : SatOp) (r' : Run) (b : Bool), r.step fuel op = some (r', b) →
+      Sat.stepL fuel r.s r.orig (c07_dec op) = some (r'.s, r'.orig, b) := by c07_bridge
+  have hI : Sat.InvB r.orig r.s :=
+    Sat.reach_generic fuel Run.s Run.orig (c07_dec) (Run.step fuel) (Run.steps fuel) hb (fun _ => rfl)
+      (fun _ _ _ hs => by simp only [Run.steps, hs]) (fun _ _ _ _ _ hs => by simp only [Run.steps, hs])
+      ops Run.init r Sat.init_invB h
+  have hf := (Sat.step_spec hI (hb r op r' false hs)).falseOK rfl
+  cases op <;> exact hf
 
 /-- after a successful propagation no stored clause is falsified and none is unit: unit
     propagation reached its fixpoint (completeness of the two-watched-literal scheme) -/
@@ -129,7 +155,18 @@ theorem C07_bcp_fixpoint (fuel : Nat) (ops : List SatOp) (r r' : Run) (op : SatO
     (h : Run.steps fuel Run.init ops = some r) (hs : r.step fuel op = some (r', true))
     (hop : op = .propagate ∨ (∃ p, op = .assume p) ∨ op = .next ∨ op = .simplifyDb) :
     r'.s.queue = [] ∧
-    ∀ e ∈ r'.s.cls, (∃ l ∈ e.2, r'.s.value l = some true) ∨ 2 ≤ (e.2.filter (fun l => r'.s.value l = none)).eraseDups.length := by sorry
+    ∀ e ∈ r'.s.cls, (∃ l ∈ e.2, r'.s.value l = some true) ∨ 2 ≤ (e.2.filter (fun l => r'.s.value l = none)).eraseDups.length := by
+  have hb : ∀ (r : Run) (op : SatOp) (r' : Run) (b : Bool), r.step fuel op = some (r', b) →
+      Sat.stepL fuel r.s r.orig (c07_dec op) = some (r'.s, r'.orig, b) := by c07_bridge
+  have hI : Sat.InvB r.orig r.s :=
+    Sat.reach_generic fuel Run.s Run.orig (c07_dec) (Run.step fuel) (Run.steps fuel) hb (fun _ => rfl)
+      (fun _ _ _ hs => by simp only [Run.steps, hs]) (fun _ _ _ _ _ hs => by simp only [Run.steps, hs])
+      ops Run.init r Sat.init_invB h
+  have hres := Sat.step_spec hI (hb r op r' true hs)
+  have hp : Sat.isProp (c07_dec op) := by
+    rcases hop with rfl | ⟨p, rfl⟩ | rfl | rfl <;> exact trivial
+  obtain ⟨hq, hd⟩ := hres.bcp rfl hp
+  exact ⟨hq, hres.inv.bcp hq hd⟩
 
 /-- when every variable is assigned after a successful propagation, the assignment satisfies
     every clause ever added -/
@@ -137,13 +174,32 @@ theorem C07_total_assignment_satisfies_all (fuel : Nat) (ops : List SatOp) (r r'
     (h : Run.steps fuel Run.init ops = some r) (hs : r.step fuel op = some (r', true))
     (hop : op = .propagate ∨ (∃ p, op = .assume p) ∨ op = .next)
     (htot : ∀ v, v < r'.s.nvars → r'.s.vals.getD v none ≠ none) :
-    Asg.cnf (fun v => (r'.s.vals.getD v none).getD false) r'.orig = true := by sorry
+    Asg.cnf (fun v => (r'.s.vals.getD v none).getD false) r'.orig = true := by
+  have hb : ∀ (r : Run) (op : SatOp) (r' : Run) (b : Bool), r.step fuel op = some (r', b) →
+      Sat.stepL fuel r.s r.orig (c07_dec op) = some (r'.s, r'.orig, b) := by c07_bridge
+  have hI : Sat.InvB r.orig r.s :=
+    Sat.reach_generic fuel Run.s Run.orig (c07_dec) (Run.step fuel) (Run.steps fuel) hb (fun _ => rfl)
+      (fun _ _ _ hs => by simp only [Run.steps, hs]) (fun _ _ _ _ _ hs => by simp only [Run.steps, hs])
+      ops Run.init r Sat.init_invB h
+  have hres := Sat.step_spec hI (hb r op r' true hs)
+  have hp : Sat.isProp (c07_dec op) := by
+    rcases hop with rfl | ⟨p, rfl⟩ | rfl <;> exact trivial
+  obtain ⟨hq, hd⟩ := hres.bcp rfl hp
+  exact hres.inv.total hq hd htot
 
 /-- `next()` adds exactly one clause: the negation of the decisions standing when it is called -/
-theorem C07_next_blocks_only_current_decisions (fuel : Nat) (s s' : Sat) (b : Bool)
-    (hr : s.rootLevel = false) (h : s.next fuel = some (b, s')) :
-    ∃ rest, s'.log = s.log ++ (s.decisions.map Lit.neg) :: rest ∧
-      ∀ c ∈ rest, Entails (s.cls.map (·.2) ++ [s.decisions.map Lit.neg] ++ unitsOf (s.trail.filter (fun l => s.level.getD l.var 0 = 0))) c := by sorry
+theorem C07_next_blocks_only_current_decisions (fuel : Nat) (ops : List SatOp) (r : Run) (s' : Sat) (b : Bool)
+    (h : Run.steps fuel Run.init ops = some r) (hp : r.s.pre .next = true)
+    (hr : r.s.rootLevel = false) (hn : r.s.next fuel = some (b, s')) :
+    ∃ rest, s'.log = r.s.log ++ (r.s.decisions.map Lit.neg) :: rest ∧
+      ∀ c ∈ rest, Entails (r.orig ++ [r.s.decisions.map Lit.neg]) c := by
+  have hb : ∀ (r : Run) (op : SatOp) (r' : Run) (b : Bool), r.step fuel op = some (r', b) →
+      Sat.stepL fuel r.s r.orig (c07_dec op) = some (r'.s, r'.orig, b) := by c07_bridge
+  have hI : Sat.InvB r.orig r.s :=
+    Sat.reach_generic fuel Run.s Run.orig (c07_dec) (Run.step fuel) (Run.steps fuel) hb (fun _ => rfl)
+      (fun _ _ _ hs => by simp only [Run.steps, hs]) (fun _ _ _ _ _ hs => by simp only [Run.steps, hs])
+      ops Run.init r Sat.init_invB h
+  exact hI.next_blocks hp hr hn
 
 /-- the constructors of the full model are those of the root-level model of C13 -/
 theorem C07_constructors_project (s : Sat) (a b : Lit) (ls : List Lit) :
@@ -152,7 +208,21 @@ theorem C07_constructors_project (s : Sat) (a b : Lit) (ls : List Lit) :
     ((s.newDisj ls).1 = (s.toEnc.newDisj ls).1 ∧ (s.newDisj ls).2.toEnc = (s.toEnc.newDisj ls).2) ∧
     ((s.newAtMostOne ls).1 = (s.toEnc.newAtMostOne ls).1 ∧ (s.newAtMostOne ls).2.toEnc = (s.toEnc.newAtMostOne ls).2) ∧
     ((s.newExctOne ls).1 = (s.toEnc.newExctOne ls).1 ∧ (s.newExctOne ls).2.toEnc = (s.toEnc.newExctOne ls).2) ∧
-    ((s.newClause ls).1 = (s.toEnc.newClause ls).1 ∧ (s.newClause ls).2.toEnc = (s.toEnc.newClause ls).2) := by sorry
+    ((s.newClause ls).1 = (s.toEnc.newClause ls).1 ∧ (s.newClause ls).2.toEnc = (s.toEnc.newClause ls).2) := by
+  have h := Sat.primSim
+  have e1 := h.newEq s a b
+  have e2 := h.newConj s ls
+  have e3 := h.newDisj s ls
+  have e4 := h.newAtMostOne s ls
+  have e5 := h.newExctOne s ls
+  have e6 := Sat.toEnc_newClause s ls
+  rw [Cons_enc_newEq] at e1
+  rw [Cons_enc_newConj] at e2
+  rw [Cons_enc_newDisj] at e3
+  rw [Cons_enc_newAtMostOne] at e4
+  rw [Cons_enc_newExctOne] at e5
+  simp only [pm, Prod.ext_iff] at e1 e2 e3 e4 e5 e6
+  exact ⟨e1, e2, e3, e4, e5, e6⟩
 
 /-! ## non-vacuity: a concrete history with a conflict analysed above root level -/
 
@@ -163,6 +233,10 @@ def demoOps : List SatOp :=
    .clause [⟨1, true⟩, ⟨2, true⟩], .clause [⟨2, false⟩, ⟨3, true⟩, ⟨5, true⟩],
    .clause [⟨3, false⟩, ⟨4, true⟩], .clause [⟨3, false⟩, ⟨4, false⟩], .propagate, .assume ⟨5, false⟩, .assume ⟨1, false⟩]
 
-example : ∃ r, Run.steps 100 Run.init demoOps = some r ∧ r.s.log ≠ [] ∧ r.s.dead = false := by sorry
+example : ∃ r, Run.steps 100 Run.init demoOps = some r ∧ r.s.log ≠ [] ∧ r.s.dead = false := by
+  have h : (Run.steps 100 Run.init demoOps).any (fun r => decide (r.s.log ≠ [] ∧ r.s.dead = false)) = true := by
+    decide
+  obtain ⟨r, h1, h2⟩ := exists_of_any h
+  exact ⟨r, h1, by simpa using h2⟩
 
 end Oratio
